@@ -326,6 +326,16 @@ theorem c04_x_indexFetch_loop :
       "docs, err := fetchIndex.ReadDocs(fetchIndex.GetBlocksOffsets(blocks[i]), docOffsets)", "if err != nil { return err }",
       "for src, dst := range index[i] { res[dst] = docs[src] }"] := by decide
 
+/-- support code the fetch depends on after a restart.  (1) `ActiveWriter.Write` writes the docs block and the meta
+block of a bulk under one lock, so docs offsets and meta blocks come in the same order - `Active.Replay` recomputes
+the docs offsets in meta order, and `c04_active_fetch_verbatim` needs the recorded positions to point at the bulk's
+own block.  (2) When the sorted docs and the index of a fraction exist, the loader removes a leftover `.meta` AND a
+leftover unsorted `.docs` before it loads the fraction as sealed (the sealed fraction's positions refer to `.sdocs`). -/
+theorem c04_x_restart_support :
+    activeWriterLocks = ["a.mu.Lock()", "defer a.mu.Unlock()"] ∧
+    loaderRemovals = ["info.hasSdocs && info.hasIndex && info.hasMeta: removeFile(info.base + consts.MetaFileSuffix)",
+      "info.hasSdocs && info.hasIndex && info.hasDocs: removeFile(info.base + consts.DocsFileSuffix)"] := by decide
+
 /-- position packing at the extracted `docOffsetBits`: every (block, offset) the writer can produce is read back,
 and never collides with `DocPosNotFound` -/
 theorem c04_x_docpos_roundtrip (block off : Nat) (ho : off < 2 ^ docOffsetBits) (hb : block < 4294967296) :
